@@ -1,6 +1,6 @@
 (* WinRectSetProofs.v -- region-level ("covered") correctness of the window layer's
    rectangle set (WinRectSet.v = wrappers around the C05 model RectSetDefs.v, repaired code
-   stale = false) and of the helpers rs_clip / rs_sub_vis / shift_damage of WinDefs.v.
+   stale = false) and of the helpers rs_clip rfuel / rs_sub_vis rfuel / shift_damage rfuel of WinDefs.v.
 
    Part A (sections 0-7): facts that need only [all_nonempty] of the set (no sortedness, no
              separation), proved here directly on RectSetDefs.rs_scan / rs_add_at /
@@ -18,6 +18,9 @@ Import ListNotations.
 Local Open Scope Z_scope.
 
 Notation Inv := RectSetSpec.Inv.
+
+Section Fuel.
+Context {rfuel : nat}.
 
 (* ------------------------------------------------------------------------------------ *)
 (* 0. small helpers                                                                      *)
@@ -389,7 +392,7 @@ Proof.
 Qed.
 
 (* ------------------------------------------------------------------------------------ *)
-(* 5 + 7, generic part: rs_clip and shift_damage fold rs_add / rs_add_list from [], so    *)
+(* 5 + 7, generic part: rs_clip rfuel and shift_damage rfuel fold rs_add / rs_add_list from [], so    *)
 (* whatever invariant [I] add keeps (all_nonempty, or Inv) holds of their results        *)
 
 Definition shift_region (rc : rect) (d r : Z) (x : rect) (p : cell) : Prop :=
@@ -419,9 +422,9 @@ Definition shift_step (rc : rect) (down rightw : Z) (acc : option rectset) (x : 
   | None => None
   | Some s =>
     if (bottom x <? top rc) || (top x >? bottom rc) || (right x <? left rc) || (left x >? right rc)
-    then rs_add rsfuel s x
+    then rs_add rfuel s x
     else
-      match rs_add_list rsfuel s (r_subtract x rc) with
+      match rs_add_list rfuel s (r_subtract x rc) with
       | None => None
       | Some s1 =>
         match r_intersect x rc with
@@ -429,14 +432,14 @@ Definition shift_step (rc : rect) (down rightw : Z) (acc : option rectset) (x : 
         | Some ins =>
           match r_intersect (r_translate ins (- down) (- rightw)) rc with
           | None => Some s1
-          | Some y => rs_add rsfuel s1 y
+          | Some y => rs_add rfuel s1 y
           end
         end
       end
   end.
 
 Lemma shift_damage_unfold dmg rc d r :
-  shift_damage dmg rc d r = fold_left (shift_step rc d r) dmg (Some []).
+  shift_damage rfuel dmg rc d r = fold_left (shift_step rc d r) dmg (Some []).
 Proof. reflexivity. Qed.
 
 Section FoldsOfAdds.
@@ -450,20 +453,20 @@ Section FoldsOfAdds.
     I s' /\ forall p, covered s' p <-> covered s p \/ covered l p.
 
   Lemma rs_clip_gen : forall s bounds s',
-    rs_clip s bounds = Some s' ->
+    rs_clip rfuel s bounds = Some s' ->
     I s' /\ forall p, covered s' p <-> covered s p /\ cell_in bounds p.
   Proof.
     intros s bounds s' H. unfold rs_clip in H.
     assert (Hstep : forall s0 x s0', I s0 -> True ->
               match r_intersect x bounds with
-              | Some y => rs_add rsfuel s0 y
+              | Some y => rs_add rfuel s0 y
               | None => Some s0
               end = Some s0' ->
               I s0' /\ forall p, covered s0' p <-> covered s0 p \/ (cell_in x p /\ cell_in bounds p)).
     { intros s0 x s0' Hs0 _ Hst.
       destruct (r_intersect x bounds) as [y|] eqn:Ei.
       - destruct (intersect_some x bounds y Ei) as [Hy Hyc].
-        destruct (I_add rsfuel s0 y s0' Hs0 Hy Hst) as [Ha Hb].
+        destruct (I_add rfuel s0 y s0' Hs0 Hy Hst) as [Ha Hb].
         split; [exact Ha|]. intros p. rewrite Hb, Hyc. tauto.
       - injection Hst as <-. split; [exact Hs0|].
         intros p. pose proof (intersect_none x bounds Ei p). tauto. }
@@ -471,7 +474,7 @@ Section FoldsOfAdds.
       (fun acc x => match acc with
                     | None => None
                     | Some s' => match r_intersect x bounds with
-                                 | Some y => rs_add rsfuel s' y
+                                 | Some y => rs_add rfuel s' y
                                  | None => Some s'
                                  end
                     end)
@@ -491,19 +494,19 @@ Section FoldsOfAdds.
     intros Hrc Hs Hx H. unfold shift_step in H.
     destruct ((bottom x <? top rc) || (top x >? bottom rc) || (right x <? left rc)
               || (left x >? right rc)) eqn:Efar.
-    - destruct (I_add rsfuel s x s' Hs Hx H) as [Ha Hb].
+    - destruct (I_add rfuel s x s' Hs Hx H) as [Ha Hb].
       split; [exact Ha|]. intros p. rewrite Hb. unfold shift_region.
       pose proof (far_disjoint x rc Efar p) as D1.
       pose proof (far_disjoint x rc Efar (fst p + d, snd p + r)) as D2.
       tauto.
-    - destruct (rs_add_list rsfuel s (r_subtract x rc)) as [s1|] eqn:Ea; [|discriminate].
+    - destruct (rs_add_list rfuel s (r_subtract x rc)) as [s1|] eqn:Ea; [|discriminate].
       destruct (subtract_ok x rc Hx Hrc) as [_ [HneL [_ HcovL]]].
-      destruct (I_add_list rsfuel _ _ _ Hs HneL Ea) as [Hne1 Hcov1].
+      destruct (I_add_list rfuel _ _ _ Hs HneL Ea) as [Hne1 Hcov1].
       destruct (r_intersect x rc) as [ins|] eqn:Ei.
       + destruct (intersect_some x rc ins Ei) as [_ Hins].
         destruct (r_intersect (r_translate ins (- d) (- r)) rc) as [y|] eqn:Ej.
         * destruct (intersect_some _ rc y Ej) as [Hy Hyc].
-          destruct (I_add rsfuel s1 y s' Hne1 Hy H) as [Ha Hb].
+          destruct (I_add rfuel s1 y s' Hne1 Hy H) as [Ha Hb].
           split; [exact Ha|]. intros p.
           rewrite Hb, Hcov1, HcovL, Hyc, r_translate_neg_cell, Hins.
           unfold shift_region. tauto.
@@ -517,7 +520,7 @@ Section FoldsOfAdds.
   Qed.
 
   Lemma shift_damage_gen : forall dmg rc d r dmg',
-    all_nonempty dmg -> nonempty rc -> shift_damage dmg rc d r = Some dmg' ->
+    all_nonempty dmg -> nonempty rc -> shift_damage rfuel dmg rc d r = Some dmg' ->
     I dmg' /\
     forall p, covered dmg' p <->
               (covered dmg p /\ ~ cell_in rc p) \/
@@ -541,10 +544,10 @@ Section FoldsOfAdds.
 End FoldsOfAdds.
 
 (* ------------------------------------------------------------------------------------ *)
-(* 5. rs_clip                                                                            *)
+(* 5. rs_clip rfuel                                                                            *)
 
 Theorem rs_clip_covered : forall s bounds s',
-  all_nonempty s -> rs_clip s bounds = Some s' ->
+  all_nonempty s -> rs_clip rfuel s bounds = Some s' ->
   all_nonempty s' /\ forall p, covered s' p <-> covered s p /\ cell_in bounds p.
 Proof.
   intros s bounds s' _ H.
@@ -552,7 +555,7 @@ Proof.
 Qed.
 
 (* ------------------------------------------------------------------------------------ *)
-(* 6. rs_subtract / rs_sub_vis without the invariant (partial; the exact statements      *)
+(* 6. rs_subtract / rs_sub_vis rfuel without the invariant (partial; the exact statements      *)
 (*    under Inv are rs_subtract_exact / rs_sub_vis_exact of section 8)                   *)
 
 Lemma rs_subtract_loop_covered_partial : forall lfuel fuel s i hole s',
@@ -594,18 +597,18 @@ Proof.
   exact (rs_subtract_loop_covered_partial fuel fuel s O hole s' Hne Hh H).
 Qed.
 
-Lemma rs_sub_vis_none l : rs_sub_vis None l = None.
+Lemma rs_sub_vis_none l : rs_sub_vis rfuel None l = None.
 Proof. unfold rs_sub_vis. apply fold_left_none. intros x. reflexivity. Qed.
 
 Lemma rs_sub_vis_cons s c l :
-  rs_sub_vis (Some s) (c :: l) =
-  rs_sub_vis (if w_vis (t_info c) then rs_subtract rsfuel s (w_rect (t_info c)) else Some s) l.
+  rs_sub_vis rfuel (Some s) (c :: l) =
+  rs_sub_vis rfuel (if w_vis (t_info c) then rs_subtract rfuel s (w_rect (t_info c)) else Some s) l.
 Proof. reflexivity. Qed.
 
 Theorem rs_sub_vis_covered_partial : forall l s s',
   all_nonempty s ->
   Forall (fun c => w_vis (t_info c) = true -> nonempty (w_rect (t_info c))) l ->
-  rs_sub_vis (Some s) l = Some s' ->
+  rs_sub_vis rfuel (Some s) l = Some s' ->
   all_nonempty s' /\
   (forall p, covered s p ->
              (forall c, In c l -> w_vis (t_info c) = true -> ~ cell_in (w_rect (t_info c)) p) ->
@@ -618,9 +621,9 @@ Proof.
   - rewrite rs_sub_vis_cons in H.
     inversion Hl as [|c' l' Hc Hl']; subst.
     destruct (w_vis (t_info c)) eqn:Ev.
-    + destruct (rs_subtract rsfuel s (w_rect (t_info c))) as [s1|] eqn:Es.
+    + destruct (rs_subtract rfuel s (w_rect (t_info c))) as [s1|] eqn:Es.
       2:{ rewrite rs_sub_vis_none in H. discriminate. }
-      destruct (rs_subtract_covered_partial rsfuel s _ s1 Hne (Hc eq_refl) Es)
+      destruct (rs_subtract_covered_partial rfuel s _ s1 Hne (Hc eq_refl) Es)
         as [Hne1 [Hsup1 Hsub1]].
       destruct (IH s1 s' Hne1 Hl' H) as [Hne' [Hsup Hsub]].
       split; [exact Hne'|]. split.
@@ -636,10 +639,10 @@ Proof.
 Qed.
 
 (* ------------------------------------------------------------------------------------ *)
-(* 7. shift_damage                                                                       *)
+(* 7. shift_damage rfuel                                                                       *)
 
 Theorem shift_damage_covered : forall dmg rc d r dmg',
-  all_nonempty dmg -> nonempty rc -> shift_damage dmg rc d r = Some dmg' ->
+  all_nonempty dmg -> nonempty rc -> shift_damage rfuel dmg rc d r = Some dmg' ->
   all_nonempty dmg' /\
   forall p, covered dmg' p <->
             (covered dmg p /\ ~ cell_in rc p) \/
@@ -698,21 +701,21 @@ Proof.
   exact (RectSetQueries.rs_contains_ok s Hinv fuel q ans Hq H).
 Qed.
 
-(* rs_clip folds adds from []: the result satisfies Inv whatever s is *)
+(* rs_clip rfuel folds adds from []: the result satisfies Inv whatever s is *)
 Theorem rs_clip_inv_any : forall s bounds s',
-  rs_clip s bounds = Some s' ->
+  rs_clip rfuel s bounds = Some s' ->
   Inv s' /\ forall p, covered s' p <-> covered s p /\ cell_in bounds p.
 Proof. exact (rs_clip_gen Inv inv_nil rs_add_inv). Qed.
 
 Theorem rs_clip_inv : forall s bounds s',
-  Inv s -> rs_clip s bounds = Some s' ->
+  Inv s -> rs_clip rfuel s bounds = Some s' ->
   Inv s' /\ forall p, covered s' p <-> covered s p /\ cell_in bounds p.
 Proof. intros s bounds s' _ H. exact (rs_clip_inv_any s bounds s' H). Qed.
 
 Theorem rs_sub_vis_exact : forall l s s',
   Inv s ->
   Forall (fun c => w_vis (t_info c) = true -> nonempty (w_rect (t_info c))) l ->
-  rs_sub_vis (Some s) l = Some s' ->
+  rs_sub_vis rfuel (Some s) l = Some s' ->
   Inv s' /\
   forall p, covered s' p <->
             covered s p /\
@@ -726,9 +729,9 @@ Proof.
   - rewrite rs_sub_vis_cons in H.
     inversion Hl as [|c' l' Hc Hl']; subst.
     destruct (w_vis (t_info c)) eqn:Ev.
-    + destruct (rs_subtract rsfuel s (w_rect (t_info c))) as [s1|] eqn:Es.
+    + destruct (rs_subtract rfuel s (w_rect (t_info c))) as [s1|] eqn:Es.
       2:{ rewrite rs_sub_vis_none in H. discriminate. }
-      destruct (rs_subtract_exact rsfuel s _ s1 Hinv (Hc eq_refl) Es) as [Hinv1 Hcov1].
+      destruct (rs_subtract_exact rfuel s _ s1 Hinv (Hc eq_refl) Es) as [Hinv1 Hcov1].
       destruct (IH s1 s' Hinv1 Hl' H) as [Hinv' Hcov'].
       split; [exact Hinv'|]. intros p. rewrite Hcov', Hcov1. split.
       * intros [[Hp Hn] Hout]. split; [exact Hp|].
@@ -745,13 +748,15 @@ Proof.
         intros c0 Hin Hv. apply (Hout c0); [right; exact Hin|exact Hv].
 Qed.
 
-(* shift_damage folds adds from []: the result satisfies Inv whatever the order/shape of dmg
+(* shift_damage rfuel folds adds from []: the result satisfies Inv whatever the order/shape of dmg
    (its members only have to be non-empty) *)
 Theorem shift_damage_inv : forall dmg rc d r dmg',
-  all_nonempty dmg -> nonempty rc -> shift_damage dmg rc d r = Some dmg' ->
+  all_nonempty dmg -> nonempty rc -> shift_damage rfuel dmg rc d r = Some dmg' ->
   Inv dmg' /\
   forall p, covered dmg' p <->
             (covered dmg p /\ ~ cell_in rc p) \/
             (cell_in rc p /\ cell_in rc (fst p + d, snd p + r) /\
              covered dmg (fst p + d, snd p + r)).
 Proof. exact (shift_damage_gen Inv inv_nil rs_add_inv rs_add_list_inv). Qed.
+
+End Fuel.
